@@ -229,14 +229,6 @@ end witnesses
 
 /-! ## 3. More than two thirds of the distinct producers -/
 
-theorem lookup_setP_self (k : String) (v : PL) : ∀ l, lookup k (setP k v l) = some v
-  | [] => by simp [setP, lookup]
-  | (k', v') :: t => by
-    unfold setP
-    by_cases h : (k' == k) = true
-    · simp [h, lookup]
-    · simp [h, lookup, lookup_setP_self k v t]
-
 /-- **prelib_quorum.** One connect step (`addConfirmInfo` + `update`, as in Status.Update and in the replay of
 loadPlibStatus) on a window satisfying the count invariant for `q ≤ confirmsRequired`: if the getPreLIB loop reports `bi`,
 then (a) the producer's proposed entry becomes (bi, by this block); (b) there are at least `q` blocks in the window, all
@@ -280,8 +272,8 @@ theorem prelib_quorum (q : Nat) (ls : LS) (b : Blk) (hint : String) (bi : BI)
         rfl
       rw [hc1]
       by_cases hh : inRange bi bi.no = true
-      · simp only [hh, if_true, List.length_cons, List.length_nil]; omega
-      · simp only [hh, if_false, List.length_nil]; omega
+      · rw [if_pos hh, if_pos hh]; simp only [List.length_cons, List.length_nil]; omega
+      · rw [if_neg hh, if_neg hh]; simp only [List.length_nil]; omega
     omega
   · intro d hd
     simpa using (List.mem_filter.mp hd).2
@@ -369,64 +361,6 @@ theorem window_invariant_history (k : Nat) (h1 : 1 ≤ k) (h4 : k ≤ 4) (self :
 /-- every block the status refers to satisfies `P` (think: "is on the node's main chain"). -/
 def AllP (P : BI → Prop) (ls : LS) : Prop :=
   (∀ kv ∈ ls.prpsd, P kv.2.plib) ∧ (∀ c ∈ ls.confirms, P c.bi) ∧ P ls.lib ∧ P ls.genesis
-
-theorem mem_setP {k : String} {v : PL} : ∀ {l : List (String × PL)} {kv : String × PL},
-    kv ∈ setP k v l → kv = (k, v) ∨ kv ∈ l
-  | [], kv, h => by simp [setP] at h; exact Or.inl h
-  | (k', v') :: t, kv, h => by
-    unfold setP at h
-    split at h
-    · rcases List.mem_cons.mp h with h | h
-      · exact Or.inl h
-      · exact Or.inr (List.mem_cons_of_mem _ h)
-    · rcases List.mem_cons.mp h with h | h
-      · exact Or.inr (by rw [h]; exact List.mem_cons_self)
-      · rcases mem_setP h with h | h
-        · exact Or.inl h
-        · exact Or.inr (List.mem_cons_of_mem _ h)
-
-theorem walk_bis (x : BI) : ∀ (l : List CI),
-    (∀ c ∈ (walk x l).1, ∃ c0 ∈ l, c.bi = c0.bi) ∧ (∀ bi, (walk x l).2 = some bi → ∃ c0 ∈ l, bi = c0.bi)
-  | [] => by simp [walk]
-  | c :: rest => by
-    obtain ⟨ih1, ih2⟩ := walk_bis x rest
-    obtain ⟨e1, _⟩ := step_elem x c
-    rw [walk_cons]
-    generalize (if inRange x c.bi.no then { c with left := decr16 c.left } else c : CI) = c' at e1 ⊢
-    split
-    · refine ⟨?_, ?_⟩
-      · intro d hd
-        rcases List.mem_cons.mp hd with h | h
-        · exact ⟨c, List.mem_cons_self, by rw [h, e1]⟩
-        · exact ⟨d, List.mem_cons_of_mem _ h, rfl⟩
-      · intro bi hbi
-        exact ⟨c, List.mem_cons_self, by simp at hbi; rw [← hbi, e1]⟩
-    · refine ⟨?_, ?_⟩
-      · intro d hd
-        rcases List.mem_cons.mp hd with h | h
-        · exact ⟨c, List.mem_cons_self, by rw [h, e1]⟩
-        · obtain ⟨c0, m, e⟩ := ih1 d h
-          exact ⟨c0, List.mem_cons_of_mem _ m, e⟩
-      · intro bi hbi
-        obtain ⟨c0, m, e⟩ := ih2 bi hbi
-        exact ⟨c0, List.mem_cons_of_mem _ m, e⟩
-
-theorem calcLIB_mem (prpsd : List (String × PL)) (hint : String) (l : BI) (h : calcLIB prpsd hint = some l) :
-    ∃ kv ∈ prpsd, kv.2.plib = l := by
-  unfold calcLIB at h
-  have hc : l ∈ calcLIBCands prpsd := by
-    simp only at h
-    split at h
-    · rename_i b hf
-      have := List.mem_of_find?_eq_some hf
-      simp at h; rw [← h]; exact this
-    · exact List.mem_of_mem_head? h
-  unfold calcLIBCands at hc
-  split at hc
-  · simp at hc
-  · have := (List.mem_filter.mp hc).1
-    obtain ⟨kv, m, e⟩ := List.mem_map.mp this
-    exact ⟨kv, m, e⟩
 
 /-- **lib_on_chain_partial.** The connect branch (`addConfirmInfo`, `update`, `updateLIB`, `gc`) keeps every block the
 status refers to inside any predicate `P` that holds for the new block: in particular a LIB it selects satisfies `P`. With
